@@ -12,7 +12,8 @@ META = {
                    "the connector dials exactly those parts; (C06.3) tokens are minted only in key.rs and TokenMap::insert returns map.entry(key).or_insert_with(fresh); "
                    "(C06.4) every HashMap/HashSet<Token> access in the pool uses one token root per function and only keyed methods (no iteration); "
                    "(C06.5) token fields are written only in struct literals whose token operand is the function's own token or Token::zero(); "
-                   "(C06.6) hand-back sites pass their own token with their own connection (P2).",
+                   "(C06.6) hand-back sites pass their own token with their own connection (P2)."
+                   " C06.1 requires scheme and authority to enter the key through accessors and clones only; C06.3 checks TokenMap::insert in normal form (entry: Occupied answers the stored token, a token is minted and stored only for Vacant) and that no TokenMap value is ever overwritten or its counter stored from anything but an advance.",
     "trusted_base": ["rustc type/borrow checker", "std HashMap/HashSet keyed-access semantics", "http::uri Scheme/Authority equality is the notion of origin",
                      "PoolInner methods are atomic (&mut self behind a mutex)"],
     "assumptions": ["token counter does not wrap (2^64 inserts)", "user-supplied K: Key has a lawful Eq/Hash (the crate's UriKey is checked)"],
